@@ -18,7 +18,7 @@ import (
 //	prec  rt  <tree>    tree in prefix notation (see lean/Driver/Dom/Prec.lean). The tree is written out
 //	                    fully parenthesised, parsed by the real parser (must give exactly the tree),
 //	                    printed by the real String(), reparsed.
-//	                    answer: `ok <printed> | <reparsed tree>`  or  `ok <printed> | !<first diagnostic>`
+//	                    answer: `ok <printed> => <reparsed tree>`  or  `ok <printed> => !`
 //
 // probe prec: printer tables (ExpressionPrecedence/ExpressionAssociativity on one node per operator),
 // the parser's ladder derived from the shapes of `a o1 b o2 c` for all operator pairs, and the raw shapes.
@@ -177,15 +177,15 @@ func precRT(s string) string {
 		return "bad-tree parsed as " + got
 	}
 	printed := e.String()
-	if strings.ContainsAny(printed, "\n\t|") {
+	if strings.ContainsAny(printed, "\n\t") {
 		return "bad-tree printed with separator"
 	}
 	e2, why := parseExpr(printed)
 	if e2 == nil {
 		_ = why
-		return "ok " + printed + " | !"
+		return "ok " + printed + " => !"
 	}
-	return "ok " + printed + " | " + exprTree(e2)
+	return "ok " + printed + " => " + exprTree(e2)
 }
 
 // ---------------------------------------------------------------- probe
